@@ -110,6 +110,17 @@ CHECKS = {
         "reconstruction of forward.",
         "geometry grid bounded (H,W<=4 quick, <=5 thorough); torch F.unfold/F.fold trusted as primitives",
     ),
+    "C19": (
+        "exploration", "DESIGN.md §3 C19",
+        "environment-answer enumeration: the three sampling primitives are replaced by an oracle and every answer sequence over a "
+        "small alphabet is tried for every configuration; plus a real-generator pass over seeds for reproducibility",
+        "Shape/dtype, exactly `steps` slices, silence at zero intensity and the minimum refractory gap are checked for every answer "
+        "sequence of length 4 (quick) / 6 (thorough) over adversarial alphabets (incl. 'as short as possible'), for all three encoders, "
+        "online and offline, intensities {0,.5,1}^2, steps {1,4,6}, dt {1,.5}, frequency {100,400,2000}, refrac {None,dt,2dt,3dt}, "
+        "compensation on/off; seeds 0..31 of the real generator are run twice each.",
+        "over-approximation of the generator only at the explored sizes; exponential draw exactly 0.0 excluded; compensated "
+        "configurations limited to the documented domain frequency*refrac<1000",
+    ),
 }
 
 PENDING_REASON = "check not built yet in this session (claimed in DESIGN.md; will move to checks when its exploration exists)"
